@@ -118,6 +118,132 @@ func main() {
 		ex.writePins(filepath.Join(*out, "Pins.lean"))
 		ex.writeCas(filepath.Join(*out, "Cas.lean"))
 		ex.writeWriteOrder(filepath.Join(*out, "WriteOrder.lean"))
+		ex.writeSlotCopies(filepath.Join(*out, "SlotCopies.lean"))
+	}
+}
+
+// ---------------------------------------------------------------------------------------------
+// child slots are loaded before they are copied into a new node (C15 / C10: no node is ever loaded
+// under a node that has already been replaced).  A "copy site" is an argument `&X.left` / `&X.right`
+// of a call to `mkNode` or `Copy`.  It is guarded when an earlier call in the same function reads
+// the same slot: `numInfo(.., &X.left, ..)` or `X.left.read(..)`.  (Textual order, not dominance:
+// the expected list of sites is reviewed by hand in Props/C15.)
+
+func childSlot(e ast.Expr) (string, bool) {
+	u, ok := e.(*ast.UnaryExpr)
+	if !ok || u.Op != token.AND {
+		return "", false
+	}
+	sel, ok := u.X.(*ast.SelectorExpr)
+	if !ok || (sel.Sel.Name != "left" && sel.Sel.Name != "right") {
+		return "", false
+	}
+	id, ok := sel.X.(*ast.Ident)
+	if !ok {
+		return "", false
+	}
+	return id.Name + "." + sel.Sel.Name, true
+}
+
+func (ex *extractor) writeSlotCopies(path string) {
+	type site struct {
+		fn, slot string
+		guarded  bool
+	}
+	var sites []site
+	for q, fd := range ex.funcs {
+		if fd.Body == nil {
+			continue
+		}
+		type rd struct {
+			slot string
+			pos  token.Pos
+		}
+		var reads []rd
+		type cp struct {
+			slot string
+			pos  token.Pos
+		}
+		var copies []cp
+		ast.Inspect(fd.Body, func(n ast.Node) bool {
+			c, ok := n.(*ast.CallExpr)
+			if !ok {
+				return true
+			}
+			name := ""
+			switch f := c.Fun.(type) {
+			case *ast.Ident:
+				name = f.Name
+			case *ast.SelectorExpr:
+				name = f.Sel.Name
+				// X.left.read(..)
+				if name == "read" {
+					if sel, ok := f.X.(*ast.SelectorExpr); ok && (sel.Sel.Name == "left" || sel.Sel.Name == "right") {
+						if id, ok := sel.X.(*ast.Ident); ok {
+							reads = append(reads, rd{id.Name + "." + sel.Sel.Name, c.Pos()})
+						}
+					}
+				}
+			}
+			for _, a := range c.Args {
+				if sl, ok := childSlot(a); ok {
+					switch name {
+					case "numInfo":
+						reads = append(reads, rd{sl, c.Pos()})
+					case "mkNode", "Copy":
+						copies = append(copies, cp{sl, c.Pos()})
+					}
+				}
+			}
+			return true
+		})
+		for _, c := range copies {
+			g := false
+			for _, r := range reads {
+				if r.slot == c.slot && r.pos < c.pos {
+					g = true
+				}
+			}
+			sites = append(sites, site{q, c.slot, g})
+		}
+	}
+	sort.Slice(sites, func(i, j int) bool {
+		if sites[i].fn != sites[j].fn {
+			return sites[i].fn < sites[j].fn
+		}
+		return sites[i].slot < sites[j].slot
+	})
+	// numInfo reads both of its nodeLoc parameters
+	numInfoReads := 0
+	if fd := ex.funcs["numInfo"]; fd != nil && fd.Body != nil {
+		seen := map[string]bool{}
+		ast.Inspect(fd.Body, func(n ast.Node) bool {
+			if c, ok := n.(*ast.CallExpr); ok {
+				if f, ok := c.Fun.(*ast.SelectorExpr); ok && f.Sel.Name == "read" {
+					if id, ok := f.X.(*ast.Ident); ok && (id.Name == "left" || id.Name == "right") {
+						seen[id.Name] = true
+					}
+				}
+			}
+			return true
+		})
+		numInfoReads = len(seen)
+	}
+	var b strings.Builder
+	b.WriteString("/- GENERATED by /verif/harness/cmd/extract from /repo — do not edit. -/\nnamespace Gkv.Gen.SlotCopies\n\n")
+	b.WriteString("/-- every argument `&X.left` / `&X.right` of a call to `mkNode` or `Copy`: (function, slot, an earlier call in the\n    function reads that slot: `numInfo(.., &X.left, ..)` or `X.left.read(..)`) -/\n")
+	b.WriteString("def sites : List (String × String × Bool) := [\n")
+	for i, st := range sites {
+		sep := ","
+		if i == len(sites)-1 {
+			sep = ""
+		}
+		fmt.Fprintf(&b, "  (%q, %q, %v)%s\n", st.fn, st.slot, st.guarded, sep)
+	}
+	b.WriteString("]\n\n/-- how many of numInfo's two nodeLoc parameters it reads -/\n")
+	fmt.Fprintf(&b, "def numInfoReads : Nat := %d\n\nend Gkv.Gen.SlotCopies\n", numInfoReads)
+	if err := os.WriteFile(path, []byte(b.String()), 0644); err != nil {
+		fail("%v", err)
 	}
 }
 
@@ -235,14 +361,15 @@ func (ex *extractor) writeWriteOrder(path string) {
 // compare-and-swap sites on the collection map (C12)
 
 // casSite: one call `_.casColl(x, y)`.
-//   argIdent     the first argument is a plain identifier x
-//   defGetColl   x has exactly one definition in the function and it is `x := _.getColl()`
-//   defBefore    that definition precedes the call
-//   sameLoop     definition and call have the same innermost enclosing `for` (or none)
-//   copiesFromX  every `copyColl(...)` in the function mentions x and calls no getColl itself
-//                (true when the function has no copyColl)
+//
+//	argIdent     the first argument is a plain identifier x
+//	defGetColl   x has exactly one definition in the function and it is `x := _.getColl()`
+//	defBefore    that definition precedes the call
+//	sameLoop     definition and call have the same innermost enclosing `for` (or none)
+//	copiesFromX  every `copyColl(...)` in the function mentions x and calls no getColl itself
+//	             (true when the function has no copyColl)
 type casSite struct {
-	fn                                                    string
+	fn                                                     string
 	argIdent, defGetColl, defBefore, sameLoop, copiesFromX bool
 }
 
